@@ -61,3 +61,76 @@ def built_verdicts(prog, parser_fn):
             if s_["k"] == "assign" and s_["rv"]["k"] == "agg" and s_["rv"].get("ak") == "adt" and s_["rv"]["adt"] == "nom::Err":
                 out.append((fn_, b, bb, i, s_["rv"]["vname"]))
     return out
+
+
+def fragment_id_chain(prog, pk):
+    """Obligations about the running sequence id kept while the full (0xFFFFFF) fragments of one message are folded:
+    [(ok, what, body, block)].  The accumulator function handed to `fold_many0` must, on every path, replace its id
+    component by the id of the fragment it was just given; and when it already holds a payload, its `in order` component
+    becomes `old && new_id == old_id.wrapping_add(1)` (false stays false).  Shape-independent: the accumulator may be a
+    tuple or a small struct, the function a closure or a named function."""
+    from .prog import cname, term_str
+    out = []
+    fold = None
+    for bb, t in pk.calls():
+        if cname(t["func"]) == "nom::multi::fold_many0":
+            fold = (bb, t)
+    if fold is None:
+        return [(False, "no fold over the full fragments found in the packet parser", pk, 0)]
+    g = pk.arg_origin(fold[0], 2)
+    gp = None
+    if isinstance(g, tuple) and g[0] == "agg" and g[1] == "closure":
+        gp = g[2]
+    elif isinstance(g, tuple) and g[0] == "const" and g[1][0] in ("closure", "fn"):
+        gp = g[1][1]
+    gb = prog.bodies.get(gp) if gp else None
+    if gb is None:
+        return [(False, "the accumulator function of the fragment fold is not a local function or closure", pk, fold[0])]
+    acc_i, item_i = (2, 3) if gb.kind == "closure" else (1, 2)
+
+    def is_item_id(t):
+        t = T.peel(t)
+        return isinstance(t, tuple) and t[0] == "field" and t[3] == 0 and T.is_param(T.peel(t[1]), item_i)
+
+    def acc_field(t):
+        t = T.peel(t)
+        if isinstance(t, tuple) and t[0] == "field" and T.is_param(T.peel(t[1]), acc_i):
+            return t[3]
+        return None
+    rows = []
+    for p in enumerate_paths(gb, max_visits=1):
+        if p.end != "return":
+            continue
+        rv = p.return_value()
+        if not (isinstance(rv, tuple) and rv[0] == "agg"):
+            continue
+        # did this path find a payload in the accumulator?
+        had = None
+        for i, blk in enumerate(p.blocks[:-1]):
+            tt = gb.term(blk)
+            if tt["k"] == "switch":
+                v = p.origin_op(tt["discr"], i)
+                if isinstance(v, tuple) and v[0] == "discr" and acc_field(v[1]) is not None:
+                    taken = [x for x, g_ in zip(tt["vals"], tt["tgts"]) if g_ == p.blocks[i + 1]]
+                    had = taken == ["1"] or (not taken and "1" not in tt["vals"])
+        rows.append((p, rv[4], had))
+    if not rows:
+        return [(False, "the accumulator function returns no aggregate", gb, 0)]
+    ncomp = len(rows[0][1])
+    idk = [k for k in range(ncomp) if any(len(c) == ncomp and is_item_id(c[k]) for _, c, _ in rows)]
+    if len(idk) != 1:
+        return [(False, "no component of the accumulator is ever set to the new fragment's sequence id", gb, 0)]
+    k = idk[0]
+    for p, comps, had in rows:
+        ok = len(comps) == ncomp and is_item_id(comps[k])
+        out.append((ok, "the fragment accumulator keeps %s as the last sequence id on a path (need the id of the fragment just folded in)" % term_str(comps[k] if len(comps) == ncomp else None)[:60],
+                    gb, p.blocks[-1]))
+        if had and len(comps) == ncomp:
+            # some bool component must be the chained order test; find it by the Eq(new_id, wrapping_add(old_id, 1)) shape
+            def is_chain(t):
+                return isinstance(t, tuple) and t[0] == "bin" and t[1] == "Eq" and ((is_item_id(t[2]) and T.is_call(T.peel(t[3]), r"<impl u8>::wrapping_add$") and acc_field(T.peel(t[3])[2][0]) == k and T.is_const_int(T.peel(t[3])[2][1], 1)) or
+                                                                              (is_item_id(t[3]) and T.is_call(T.peel(t[2]), r"<impl u8>::wrapping_add$") and acc_field(T.peel(t[2])[2][0]) == k and T.is_const_int(T.peel(t[2])[2][1], 1)))
+            chained = any(is_chain(T.peel(c)) for c in comps)
+            false_kept = any(T.is_const_int(c, 0) for c in comps)
+            out.append((chained or false_kept, "a fragment is folded onto an existing payload without comparing its sequence id with the previous one + 1 (modulo 256)", gb, p.blocks[-1]))
+    return out
